@@ -247,7 +247,7 @@ UNITS["C09"] = [
          trusted=["speedy 0.8.7 Reader::read_vec: returns Err when T::minimum_bytes_needed() * len exceeds the bytes remaining, else Vec::with_capacity(len) (dependency code, read not verified)",
                   "speedy derive: minimum_bytes_needed of a struct = sum of its fields, of an enum = tag + smallest variant (>= 1 for any non-empty item)"]),
     dict(kind="depcheck", name="depcheck_c09"),
-    dict(kind="kani", name="c09_pack", crate="kani/c09_pack", use_repo_lock=True,
+    dict(kind="kani", name="c09_pack", crate="kani/c09_pack", replay_run="c09_pack", use_repo_lock=True,
          harnesses=[dict(name="width_rule_i64", complete=True, bound="none: full i64 domain, the only loop is the 8-iteration reference loop (unwinding assertions on)"),
                     dict(name="width_rule_i32", complete=True, bound="none: full i32 domain")],
          trusted=["real `bytes` crate from the cargo registry; SqliteValue Text/Blob payload types replaced by String/Vec<u8> in this harness crate"],
